@@ -1,5 +1,6 @@
 import CalmVerif.Props.C16
-open CalmVerif.Props.C16
+import CalmVerif.Props.C16order
+open CalmVerif.Props.C16 CalmVerif.Props.C16order
 #print axioms children_cover
 #check @children_cover
 #print axioms comments_never_returned
@@ -28,3 +29,9 @@ open CalmVerif.Props.C16
 #check @walk_is_preorder_full_false
 #print axioms walk_fuel_suffices
 #check @walk_fuel_suffices
+#print axioms children_in_print_order
+#check @children_in_print_order
+#print axioms children_in_print_order_nonvacuous
+#check @children_in_print_order_nonvacuous
+#print axioms old_dowhile_order_rejected
+#check @old_dowhile_order_rejected
